@@ -157,6 +157,8 @@ def build_cond_case(case):
         c = mode + 0.6 * sig * signs
     elif cpk == "off-":
         c = mode - 0.6 * sig * signs
+    elif cpk == "far":  # conditioning coordinate outside the bulk of its conditional: the 16-point search has to meet it
+        c = mode + (3.0 if case["family"] == "skewed" else 5.0) * sig * signs
     else:
         raise HarnessError(cpk)
     lower_nat = fam.lower if fam.lower is not None else np.full(d, -math.inf)
@@ -165,7 +167,7 @@ def build_cond_case(case):
     for i in range(d):
         f = R.line(fam, c, i)
         m, w = R.cond_mode_width(f, c[i], sig[i], lower=lower_nat[i])
-        if not (f(c[i]) >= f(m) - 2.0):
+        if cpk != "far" and not (f(c[i]) >= f(m) - 2.0):
             raise HarnessError("conditioning coordinate is not in the high-density region of its conditional")
         bk = case["bounds"]
         lo, hi = m - 0.93 * W * w, m + 1.07 * W * w
@@ -190,6 +192,14 @@ def build_cond_case(case):
         else:
             raise HarnessError(bk)
         lo = max(lo, lower_nat[i])
+        if not (lo <= c[i] <= hi):
+            raise HarnessError("conditioning coordinate outside the bounds")
+        if cpk == "far":
+            # domain of the statement: the bulk must then be met by the initial 16-point search (a node within one width of the peak)
+            pk = min(max(m, lo), hi)
+            nodes = np.linspace(lo, hi, 16)
+            if np.abs(nodes - pk).min() > w:
+                raise HarnessError("far conditioning point with bounds too wide for the 16-point search: outside the quantifier")
         bounds.append((float(lo), float(hi)))
         info.append((f, m, w))
     return fam, c, bounds, info
@@ -362,7 +372,9 @@ def run(ck):
     nmax = 5 if quick else 6
     for n in range(2, nmax + 1):
         for sp in itertools.product(SPACINGS, repeat=n - 1):
-            if quick or n == 6:
+            if quick and n == 5 and sum(SPACINGS.index(v) for v in sp) % 2 != seed % 2:
+                continue  # quick: the half of the 5-node grids whose spacing indices have the parity of the seed
+            if (quick and n >= 4) or n == 6:
                 offs = [offsets[(seed + len(cases)) % len(offsets)]]
             else:
                 offs = offsets
@@ -385,8 +397,10 @@ def run(ck):
     for famn in FAMS:
         for s in SCALES:
             for bk in BOUNDS:
-                for cp in CPS:
+                for cp in CPS + ["far"]:
                     for W in Ws:
+                        if cp == "far" and W != 12.0:
+                            continue
                         k += 1
                         gsl = gss if not quick else [gss[(seed + k) % 3]]
                         for gs in gsl:
@@ -398,21 +412,23 @@ def run(ck):
     for famn in FAMS:
         for s in SCALES:
             for bk in BOUNDS:
-                for cp in CPS:
+                for cp in CPS + ["far"]:
                     k += 1
                     Wl = Ws if not quick else [Ws[(seed + k) % 2]]
+                    if cp == "far":
+                        Wl = [12.0]
                     for W in Wl:
                         scases.append({"family": famn, "s": s, "bounds": bk, "cp": cp, "W": W})
     ck.run_cases("csample", scases, chunk=1)
     ck.rule = (
-        "pls: every ascending grid of 2..5 (thorough: 2..6) nodes with spacings in {.5,1,2,7} (uniform and non-uniform; origin in {0,-3.25,1000}, "
+        "pls: every ascending grid of 2..5 (thorough: 2..6) nodes with spacings in {.5,1,2,7} (uniform and non-uniform; quick: half of the 5-node grids by seed parity; origin in {0,-3.25,1000}, "
         "rotated by seed in the quick tier) x every table over {0,1,3,10} not all zero (plus nearly flat tables straddling |dh|=1e-5 and tables rescaled by 1e-6/1e6); "
         "per call the scripted generator enumerates every positive-probability cell x u in {0,.01,.25,.5,.75,.99}. "
         "cond/csample: {separable d=3, correlated rho=.9, skewed} x scales {1e-3,1,1e3} x bounds {wide, clip-hi, clip-lo, clip-past-mode, "
-        "cp-on-node} x conditioning point {mode, off+, off-} x bound half-width {12,400} conditional widths x grid_size {64,128,33}. "
+        "cp-on-node} x conditioning point {mode, off+, off-, far (5 marginal widths off, half-width 12 only)} x bound half-width {12,400} conditional widths x grid_size {64,128,33}. "
         "A case is distinct by (nodes, uniform?, zero-mass cell, zero end value, flat, nearly flat) or by (family, scale, bounds, cp, grid touching a bound, met by the 16-point search)."
     )
     ck.assume("piecewise_linear_sample draws its cells with rng.choice(p=...) and its within-cell uniforms with rng.random/uniform of the module-level generator (one call each per invocation)")
     ck.assume("tables and grids are the listed finite alphabets; u alphabet {0,.01,.25,.5,.75,.99}")
-    ck.assume("posteriors: 3 smooth log-concave families, conditioning coordinate within 2 log-units of the conditional's peak; 'small fraction of its peak' is taken as 1e-3")
+    ck.assume("posteriors: 3 smooth log-concave families, conditioning coordinate within 2 log-units of the conditional's peak, or (cp=far) a search node within one width of the peak; 'small fraction of its peak' is taken as 1e-3")
     ck.assume("'normalised' accepts normalisation over the grid range or over the bounds, to within 4x the larger of the Simpson/trapezium quadrature errors on the returned grid")
